@@ -27,6 +27,9 @@ From Verif.Client Require Import Seq SeqProofs SeqProofsTile SeqProofsSafe SeqPr
 From Verif.Client Require DispatchClient.
 From Verif.Client Require Import SeqProofsHonest.
 From Verif.Tlog Require ProofsTree ProofsStore Spec6962 Sha TileProofsInst.
+From Verif.Module Require Escape.
+From Verif.Client Require Server ServerProofs ServerProofsLookup ServerProofsWorld.
+From Verif.Props Require B01.
 
 (* lookup_safe: an Ok result is exactly the go.sum lines (prefix filter over the lines of the
    response) of a response whose record hash is authenticated, at the stored-hash index of its id,
@@ -210,3 +213,44 @@ Example C01_honest_T_exists : forall recs : list str,
 Proof.
   intros recs. split; [apply ProofsStore.range_hash_splits | apply TileProofsInst.sha_range_length].
 Qed.
+
+(* "An honest server and honest cache never cause a failure", end to end over the model of the real
+   server (Client/Server.v: sumdb.Server.ServeHTTP over sumdb.TestServer, builder server-model, tied
+   to the implementation by check B01): the world is the server frozen in any state st reachable
+   from NewTestServer (SInv), answering every /lookup/ and /tile/ request from its fixed log, with an
+   empty cache; escaping is the model of module.EscapePath / EscapeVersion.  Then a lookup never
+   returns a security error, emits no Security event, and when the server has the module version
+   recorded it succeeds with the lines of that honest record.  (B01.hashes_ok: the hash functions
+   return 32 bytes; B01.keypair_ok: the configured verifier accepts the server's signer — both
+   with satisfiability Examples in Props/B01.v.) *)
+Theorem C01_honest_server_lookup_succeeds :
+  forall sha leaf_hash node_hash gosum sid Sg sgn V vs name st cfg h skip c path vers r evs w' c',
+    B01.hashes_ok leaf_hash node_hash -> B01.keypair_ok sid Sg sgn str V vs ->
+    ServerProofs.SInv leaf_hash node_hash gosum st ->
+    0 < Spec6962.zlen (Server.ts_records st) < 2 ^ 62 -> 1 <= h <= 30 ->
+    (exists cm, assoc (latest_file name) cfg = Some cm /\
+                honest_msg V (ProofsStore.range_hash leaf_hash node_hash (Server.ts_records st))
+                           (Spec6962.zlen (Server.ts_records st)) vs cm) ->
+    (exists k hash key, assoc (B "key") cfg = Some k /\
+       parse_verifier_key sha (trim_space k) = KOk (name, hash, key) /\
+       verifier_list str [ {| v_name := name; v_hash := hash; v_id := key |} ] = vs) ->
+    let T := ProofsStore.range_hash leaf_hash node_hash (Server.ts_records st) in
+    let N := Spec6962.zlen (Server.ts_records st) in
+    let esc_p := fun p => match Escape.escape_path p with Escape.EOk e => Some e | Escape.EErr _ => None end in
+    let esc_v := fun v => match Escape.escape_version v with Escape.EOk e => Some e | Escape.EErr _ => None end in
+    GoodClient leaf_hash V T N h vs name c ->
+    lookup sha leaf_hash node_hash V esc_p esc_v skip
+           (ServerProofsWorld.frozen_world leaf_hash node_hash sid Sg sgn st cfg) c path vers = (r, evs, w', c') ->
+    r <> LErr ESecurity /\ Forall nosec evs /\
+    HonestWorld sha leaf_hash V T N h vs name w' /\ GoodClient leaf_hash V T N h vs name c' /\
+    forall ep ev, skip path = false -> Escape.escape_path path = Escape.EOk ep ->
+      Escape.escape_version (trim_suffix vers go_mod_suffix) = Escape.EOk ev ->
+      (c_init c = None \/ rec_find (name ++ B "/lookup/" ++ ep ++ [64] ++ ev) (c_records c) = None) ->
+      ((exists data, r = LOk (result_lines path vers data) /\ honest_record leaf_hash V T N vs data) \/
+       r = LErr ERemote) /\
+      (forall id text, Server.mod_ver_match (ep ++ 64 :: ev) = true ->
+         Server.find_key (Server.version_string path (trim_suffix vers go_mod_suffix)) (Server.ts_lookup st) = Some id ->
+         nth_error (Server.ts_records st) (Z.to_nat id) = Some text -> is_valid_record_text text = true ->
+         exists data, r = LOk (result_lines path vers data) /\ honest_record leaf_hash V T N vs data).
+Proof. exact B01.B01_client_over_server. Qed.
+Print Assumptions C01_honest_server_lookup_succeeds.
